@@ -21,7 +21,9 @@ EXPLANATION = ("ContactGeometry::TriangleMesh of the real library on small close
 BOUNDS = ("catalogue of 4 concrete convex meshes (4-12 faces); query point free along a line (quick: u) or in a plane (thorough: u,v) through "
           "pinned rational points/directions (2 quick / 6 thorough base points), competitor parameters s,t (and the ray parameter) free; regions "
           "and tree branches reached by path flipping within 8-24 paths per instance; bounding spheres: the last point free along a line "
-          "(quick) / plane (thorough), the others pinned; |u|,|v| <= 8 (hypothesis); the 4- and 6-point sphere routines are entered from 5 "
+          "(quick) / plane (thorough), the others pinned; findNearestPointToFace: query point free in a plane parallel to the face (the "
+          "routine's branch structure depends only on the in-plane coordinates, so every region and sub-branch is reachable), offset "
+          "pinned; |u|,|v| <= 8 (hypothesis); the 4- and 6-point sphere routines are entered from 5 "
           "generic positions of the moving point instead of by flips")
 NOT_COVERED = ("OrientedBoundingBox(points) and therefore the OBB-tree construction for symbolic vertices (Eigen -> LAPACK eigen-solver, not "
                "instrumentable): the tree containment clause is checked on the concrete catalogue meshes only; non-convex meshes for the inside "
@@ -31,7 +33,7 @@ NOT_COVERED = ("OrientedBoundingBox(points) and therefore the OBB-tree construct
                "by a solver query and skipped); the known inside-flag defect at sharp vertices (known_findings.json); rounding")
 
 MESHES_Q = ["tetra", "obtuse", "octa", "box"]
-NFACES = {"tetra": 4, "obtuse": 4, "octa": 8, "box": 12}
+NFACES = {"tetra": 4, "obtuse": 4, "obtuse_r1": 4, "obtuse_r2": 4, "octa": 8, "box": 12}
 
 
 def instances(tier, seed):
@@ -53,16 +55,24 @@ def instances(tier, seed):
         for us in (-2.0625, -0.6875, 0.3125, 1.4375, 3.0625):
             out.append(dict(name="pts%d:bsphere@%g" % (n, us), args=["pts", "bsphere", str(n)], paths=1, mesh="pts", query="bsphere",
                             tier=tier, npts=n, useed=us, base_points=1 if tier == "quick" else 3))
-    for m, ks in ((("obtuse", [0, 1, 2, 3]), ("box", [0])) if tier == "quick" else (("obtuse", [0, 1, 2, 3]), ("tetra", [0]), ("box", [0, 5]))):
+    # per-face routine: the obtuse tetrahedron in all three cyclic vertex orders (the routine's region logic is not symmetric in the
+    # vertex order; e.g. its region-6 edge branch is only reachable when the obtuse angle is at the face's second vertex)
+    if tier == "quick":
+        faces = (("obtuse", [0]), ("obtuse_r1", [1, 3]), ("obtuse_r2", [0, 2]), ("box", [0]))
+    else:
+        faces = (("obtuse", [0, 1, 2, 3]), ("obtuse_r1", [0, 1, 2, 3]), ("obtuse_r2", [0, 1, 2, 3]), ("tetra", [0]), ("box", [0, 5]))
+    for m, ks in faces:
         for k in ks:
-            out.append(dict(name="%s:face%d" % (m, k), args=[m, "face", str(k)], paths=8 if tier == "quick" else 32, mesh=m, query="face",
-                            tier=tier, flips_per_path=16))
+            out.append(dict(name="%s:face%d" % (m, k), args=[m, "face", str(k)], paths=28 if tier == "quick" else 48, mesh=m, query="face",
+                            tier=tier, flips_per_path=12, base_points=1 if tier == "quick" else 3))
     return out
 
 
 def free_sets(inst, tr, tier, rng):
     q = inst["query"]
-    if q in ("nearest", "face"):
+    if q == "face":
+        return [["u", "v", "s", "t"]]
+    if q == "nearest":
         return [["u", "s", "t"]] if tier == "quick" else [["u", "v", "s", "t"]]
     if q == "ray":
         return [["u", "s", "t", "lam"]] if tier == "quick" else [["u", "v", "s", "t", "lam"]]
@@ -153,7 +163,7 @@ def ob_nearest(g, inst, enc, tr):
 def ob_face(g, inst, enc, tr):
     V, F = mesh_data(g, tr)
     k = int(tr.note("face"))
-    p, nf = g.ov("p"), g.ov("nf")
+    p, nf = g.ov("pf"), g.ov("nf")
     tag = "%s face %d: " % (inst["mesh"], k)
     q = g.ov("q%d" % k)
     gap = P.sub(g.norm2(g.vsub(p, q)), g.norm2(g.vsub(p, nf)))
